@@ -523,6 +523,24 @@ PROPS["C02"]["meta"] = {
 		"multi-threaded execution of the stream stages (C14, not applicable)"],
 }
 
+
+# GeoBBox::check gate (round-5 seed C19-r5-1: a rewritten check let NaN through to intersect_geo_bbox(..).unwrap())
+_GEO_CHECK = dict(funcs=["GeoBBox::check"], bounds="all four components any f64 bit pattern (NaN, infinities, subnormals): check() is Ok exactly for -180 <= w <= e <= 180, -90 <= s <= n <= 90 - the precondition the from_geo harnesses assume", sample="w, s, e, n: f64 symbolic")
+PROPS["C09"]["harnesses"].append(H("c19_geo_check_exact", CORE, c15g, tier="quick", **_GEO_CHECK))
+PROPS["C19"]["harnesses"].append(H("c19_geo_check_exact", CORE, c15g, tier="quick", **_GEO_CHECK))
+
+
+# geometry decoding (round-5 seed C19-r5-2: a reserve() of the announced point count in to_geometry)
+PROPS["C19"]["harnesses"] += [
+	H(f"c19_feature_geometry_any_{n}_t{t}", GEO, c11, funcs=["VectorTileFeature::to_geometry", "ValueReaderSlice::read_varint", "ValueReaderSlice::read_svarint"],
+		bounds=f"every {n}-byte geometry blob, geometry type {t} (1 = points, 2 = lines): an error or a geometry, no panic", sample=f"[u8; {n}]", tier=tr, timeout=to)
+	for n, t, tr, to in [(2, 1, "quick", None), (3, 1, "quick", None), (3, 2, "quick", None), (4, 1, "thorough", 2400), (4, 2, "thorough", 2400), (6, 2, "thorough", 2400)]
+] + [
+	H(f"c19_feature_geometry_longcmd_{e}_t{t}", GEO, c11, funcs=["VectorTileFeature::to_geometry"],
+		bounds=f"command integer = one 9-byte varint (announced count up to 2^60), followed by {e} symbolic bytes; geometry type {t}", sample=f"9-byte varint + [u8; {e}]", tier=tr, timeout=to)
+	for e, t, tr, to in [(0, 1, "quick", None), (2, 2, "quick", 900)]
+]
+
 # =============================================================================================
 # Registration: what was measured to finish on the reference tree (DESIGN.md 0.5). Harnesses that never produced a verdict
 # stay in the sources but are not run by any tier; TIER_OVERRIDE moves measured-slow ones to the thorough tier.
@@ -542,6 +560,10 @@ UNREGISTERED = {
 	# float division at zoom >= 24 did not finish in 2400 s
 	"c15_h12_geo_x_z24", "c15_h12_geo_x_z31", "c15_h6_count",
 	"c15_h7_index_roundtrip",
+	# VectorTileFeature::to_geometry (round-5 seed C19-r5-2): Vec<Vec<[f64; 2]>> grown inside loops whose trip count is a decoded
+	# varint - heap containers of data-dependent length; even the 2-byte instance was still in symbolic execution after 12 min / 7 GB
+	"c19_feature_geometry_any_2_t1", "c19_feature_geometry_any_3_t1", "c19_feature_geometry_any_3_t2", "c19_feature_geometry_any_4_t1",
+	"c19_feature_geometry_any_4_t2", "c19_feature_geometry_any_6_t2", "c19_feature_geometry_longcmd_0_t1", "c19_feature_geometry_longcmd_2_t2",
 	# structured vector-tile layers through Box<dyn ValueReader> sub-readers: no verdict in 2400 s
 	"c11_layer_read_2_2", "c11_layer_reencode_2_2", "c10_layer_merge_2_2",
 	# found the from_utf8(..).unwrap() defect of format_error in 14-240 s on the unrepaired tree; with the repair (from_utf8_lossy over a
